@@ -24,7 +24,7 @@ RULE = ("caption sets of 1-5 captions, 1-4 lines each of 1-80 characters over th
         'A caption text may be repeated inside a set, and the writer object may have written '
         'the same set before. '
         "Words include look-alikes of other formats' markup (&amp; &lt; <i> --> ...), which are "
-        "plain text here; in 'window' mode a caption ends while the next one is being transmitted; the set sits at 0 s or around the 1 h / 2 h / 10 h / 24 h / 100 h marks. ")
+        "plain text here; in 'window' mode a caption ends while the next one is being transmitted; the last caption may end 0-34 ms below a full hour of timecode; the set sits at 0 s or around the 1 h / 2 h / 10 h / 24 h / 100 h marks. ")
 ASSUMPTIONS = [
     "a row break after a hyphen is a legitimate line-break opportunity (textwrap semantics)",
     "three frames = 3 * 1001/30000 s; the display instant is the first EOC word of the pair",
@@ -85,7 +85,13 @@ def set_strategy(tier):
         # "window" mode: a caption ends while the next one is already being transmitted (its end
         # lies 0..transmission-time frames before the next start)
         window = (not tight) and draw(st.integers(0, 3)) == 0
+        # the last caption may end a hair below a full hour of (non-drop) timecode, i.e. just
+        # below k * 3603.6 s of real time - where rounding to a frame carries into the hours
+        edge = None
+        if base in (3590, 7200, 35990) and draw(st.booleans()):
+            edge = draw(st.sampled_from([0, 1, 1000, 8000, 16000, 16683, 17000, 33000, 34000]))
         return {"caps": caps, "lead": draw(st.sampled_from([0, 0, 1, 30, 3000])), "base": base, "window": window,
+                "hour_edge": edge,
                 "wfrac": [draw(st.integers(0, 100)) for _ in caps],
                 "reuse": draw(st.integers(0, 3)) == 0, "tight": tight}
     return build()
@@ -139,6 +145,11 @@ def build_set(case):
             end = starts[i + 1]
         if i in ends:
             end = max(ends[i], starts[i] + 20 * FRAME)
+        if case.get("hour_edge") is not None and i == len(starts) - 1:
+            k = int(starts[i] // 3603600000) + 1
+            target = Fraction(k * 3603600000 - case["hour_edge"])
+            if starts[i] + 20 * FRAME < target < starts[i] + 120 * 10 ** 6:
+                end = target
         cues.append(_model_caption(c["lines"], int(starts[i]), int(end)))
     return {"langs": [{"code": "en-US", "layout": None, "cues": cues}], "styles": {}, "layout": None}
 
